@@ -129,3 +129,29 @@ pub fn stream(rt: &tokio::runtime::Runtime, reader: &dyn TilesReaderTrait, bbox:
 pub fn runtime(workers: usize) -> tokio::runtime::Runtime {
 	tokio::runtime::Builder::new_multi_thread().worker_threads(workers).enable_all().build().expect("tokio runtime")
 }
+
+/// A reader that implements only what the trait requires: its box stream is the trait's own default.
+#[derive(Debug, Clone)]
+pub struct PlainSource(pub MemSource);
+
+#[async_trait]
+impl TilesReaderTrait for PlainSource {
+	fn get_source_name(&self) -> &str {
+		&self.0.name
+	}
+	fn get_container_name(&self) -> &str {
+		"plain"
+	}
+	fn get_parameters(&self) -> &TilesReaderParameters {
+		&self.0.parameters
+	}
+	fn override_compression(&mut self, tile_compression: TileCompression) {
+		self.0.parameters.tile_compression = tile_compression;
+	}
+	fn get_tilejson(&self) -> &TileJSON {
+		&self.0.tilejson
+	}
+	async fn get_tile_data(&self, coord: &TileCoord3) -> Result<Option<Blob>> {
+		self.0.get_tile_data(coord).await
+	}
+}
